@@ -17,7 +17,8 @@ Local Open Scope Z_scope.
 Inductive case :=
 | CSeq (c : config) (ops : list op)
 | CRace (c : config) (ns adds : list op)
-| CSRace (c : config) (ns : list op) (ths : list (list op)).
+| CSRace (c : config) (ns : list op) (ths : list (list op))
+| CPur.      (* ThreadSanitizer independence probe of distinct storages (harness/c06_purity.cc): a run-time probe, not a theorem *)
 
 (* ------------------------------------------------------------------------------------------------ parsing cases *)
 Fixpoint parse_readers (l : list tok) : option (list temporality) :=
@@ -127,7 +128,12 @@ Fixpoint parse_threads (secs : list (list tok)) : option (list (list op)) :=
 Definition parse_case_body (l : list tok) : option case :=
   match l with
   | t :: rest =>
-      if is_tag "SRACE" t then
+      if is_tag "PURITY" t then
+        match rest with
+        | [TZ _; TZ _; TZ _; TZ _] => Some CPur
+        | _ => None
+        end
+      else if is_tag "SRACE" t then
         match split_toks "|" rest with
         | r :: v :: m :: ns :: more =>
             match parse_config r v m, parse_list parse_new ns, parse_threads more with
@@ -457,6 +463,18 @@ Definition lts_totals (c : config) (ns : list op) (ths : list (list op)) (tr : l
                                    (seq 0 (nreaders c))))
   end.
 
+(* PURITY <config> <threads> <rounds> <iters>: the probe's observation is PURE, or what went wrong *)
+Definition spec_purity_ok (obs : list tok) : list tok :=
+  match obs with
+  | [t] => if is_tag "PURE" t then [] else fail "obs:unparsable"
+  | t :: _ => if is_tag "RACE" t then fail "purity:data_race"
+              else if is_tag "DIFFERS" t then fail "purity:result_differs"
+              else if is_tag "HARNESSRACE" t then fail "harness:probe_race"
+              else if is_tag "HANG" t then fail "purity:hang"
+              else fail "purity:probe_crashed"
+  | [] => fail "obs:unparsable"
+  end.
+
 Definition run_model (l : list tok) : list tok :=
   match parse_case l with
   | Some (CSeq c ops) => if case_wf c ops then print_obs (run c ops) else bad_case
@@ -474,6 +492,7 @@ Definition run_model (l : list tok) : list tok :=
                  end
         end
       else bad_case
+  | Some CPur => [tag "PURE"]
   | None => bad_case
   end.
 
@@ -502,6 +521,7 @@ Definition run_tag (l : list tok) : list tok :=
   | Some (CSRace c ns ths) =>
       if negb (srace_wf c ns ths) then bad_case
       else [TT (bs "srace_" ++ bs (path_tag c))]
+  | Some CPur => [tag "purity_probe"]
   | None => bad_case
   end.
 
@@ -529,5 +549,6 @@ Definition run_spec (l obs : list tok) : list tok :=
         | None => fail "obs:unparsable_trace"
         end
       else bad_case
+  | Some CPur => spec_purity_ok obs
   | None => bad_case
   end.
